@@ -87,8 +87,23 @@ impl Monitor for Mon {
         }
         let exempt: Option<(usize, usize)> = match s.act {
             Act::Liquidate { v, target, .. } => Some((*v, *target)),
+            // a raw Liquidate message names its target explicitly
+            Act::EngineAdmin { msg: eng::ExecuteMsg::Liquidate { vamm, trader, .. }, .. } => {
+                match (w.vamms.iter().position(|a| a.as_str() == vamm), w.traders.iter().position(|t| t == trader)) {
+                    (Some(v), Some(t)) => Some((v, t)),
+                    _ => None,
+                }
+            }
             _ => None,
         };
+        if let Act::EngineAdmin { msg, .. } = s.act {
+            if matches!(msg, eng::ExecuteMsg::DepositMargin { .. } | eng::ExecuteMsg::WithdrawMargin { .. } | eng::ExecuteMsg::ClosePosition { .. } | eng::ExecuteMsg::OpenPosition { .. } | eng::ExecuteMsg::Liquidate { .. }) {
+                out.count("aliased_address_attempts");
+                if s.pre.pos.iter().any(|pv| pv[crate::world::ALIAS_VICTIM].is_some()) {
+                    out.count("aliased_address_attempts_with_victim_position");
+                }
+            }
+        }
         for v in 0..w.vamms.len() {
             let mut holders = 0;
             for t in 0..N_TRADERS {
@@ -147,12 +162,16 @@ pub fn prop() -> HistProp {
         id: "C10",
         level: "exploration",
         profile: CfgProfile::general(),
-        weights: Weights::trading(),
+        weights: {
+            let mut w = Weights::trading();
+            w.alias = 8;
+            w
+        },
         min_ops: 6,
         max_ops: (40, 100),
         cases: (10_000, 300_000),
         make: || Box::new(Mon::default()),
-        rule: "engine histories as in C02. Every trader's Position (all eight fields, or absent) on every vAMM is read before and after each transaction: for a transaction sent by account a the positions of all traders other than a are identical, except the position named by a Liquidate. Every fifth step all query variants of all contracts are issued and the full storage dump must be unchanged. Non-trivial: at least 3 traders held positions on one vAMM at the same time and at least 5 successful engine transactions by at least 3 different senders. Distinct by digest of (cfg, ops).",
+        rule: "engine histories as in C02. Every trader's Position (all eight fields, or absent) on every vAMM is read before and after each transaction: for a transaction sent by account a the positions of all traders other than a are identical, except the position named by a Liquidate. The histories include adversarial addressing: one trader is named \"0\" + another trader's name, and that other trader sends Deposit/Withdraw/Close/Open/Liquidate messages naming the address \"<vamm>0\" (which aliases the first one's position key if keys are built by concatenation). Every fifth step all query variants of all contracts are issued and the full storage dump must be unchanged. Non-trivial: at least 3 traders held positions on one vAMM at the same time and at least 5 successful engine transactions by at least 3 different senders. Distinct by digest of (cfg, ops).",
         assumptions: &[],
         eval_counter: None,
     }
